@@ -8,6 +8,11 @@ import Dhcp.Raw
         -> ok <framehex> | panic
        the frame BroadcastRawUDPConn.WriteTo hands to the underlying conn
        (src = the bound address; `none` = nil *net.UDPAddr)
+    rawcw src=<iphex|nil>:<port> warm=<n|-> rel=<digits> <payloadhex>@<iphex|nil>:<port> ...
+        -> ok <framehex> <framehex> ... | panic
+       2..4 writers on one connection, all inside the underlying WriteTo at
+       the same time: the frame each one handed to the socket, in writer
+       order (warm-up write and release order do not matter to the model)
     rawrd bound=<iphex|nil>:<port>|none buflen=<n> <framehex> <framehex> ...
         -> ok <payloadhex>@<srciphex>:<port> ... [eof] ... end | panic
        every result of repeated ReadFrom calls over the scripted frames, in
@@ -42,6 +47,20 @@ def stepRaw (op : String) (args : List String) : Option String :=
     let dst ← dst
     pure (match writeTo src payload dst with
           | .ok f => "ok " ++ hex f
+          | .err => "err"
+          | .panic => "panic")
+  | "rawcw", toks => do
+    let src ← parseAddr (← field toks "src")
+    let ws ← (toks.filter (fun t => t.toList.contains '@')).mapM (fun t =>
+      match t.splitOn "@" with
+      | [p, a] => do
+        let p ← unhex p
+        let a ← parseAddr a
+        let a ← a
+        pure (p, a)
+      | _ => none)
+    pure (match writeAll src ws with
+          | .ok fs => " ".intercalate ("ok" :: fs.map hex)
           | .err => "err"
           | .panic => "panic")
   | "rawrd", toks => do
